@@ -268,11 +268,43 @@ static void final_delivery_checks(long idx, struct vep *a, struct vep *b)
     if (a->n_att) veng_check_delivery(idx, a, b, false, ctx);
 }
 
+
+/* Another TLS connection handled by the same thread runs into a protocol error first (a peer that speaks something else).  That is that
+ * connection's business: what the connection under test reports later must be unaffected. */
+static void prior_tls_protocol_error(void)
+{
+    struct xcm_attr_map *m = xcm_attr_map_create(); xcm_attr_map_add_bool(m, "xcm.blocking", false);
+    struct xcm_socket *sv = xcm_server_a("tls:127.0.0.1:0", m); xcm_attr_map_destroy(m);
+    if (!sv) return;
+    const char *la = xcm_local_addr(sv); int port = la ? atoi(strrchr(la, ':') + 1) : 0;
+    int fd = socket(AF_INET, SOCK_STREAM, 0);
+    struct sockaddr_in a = { .sin_family = AF_INET, .sin_port = htons((unsigned short)port) }; inet_pton(AF_INET, "127.0.0.1", &a.sin_addr);
+    struct xcm_socket *x = NULL; bool eproto = false;
+    int crc = fd >= 0 ? connect(fd, (struct sockaddr *)&a, sizeof a) : -1; int cerr = errno;
+    VLOG("prior protocol error step: raw connect to port %d -> %d errno %d", port, crc, cerr);
+    if (crc == 0) {
+        vs_mark_harness_fd(fd);
+        static const char junk[] = "GET / HTTP/1.0\r\n\r\nthis is not a TLS ClientHello at all, it is just some text";
+        if (vs_real_send(fd, junk, sizeof junk, MSG_NOSIGNAL) < 0) {}
+        for (int i = 0; i < 2000 && !eproto; i++) {
+            if (!x) { x = xcm_accept(sv); if (!x && errno != EAGAIN) { eproto = true; break; } }      /* the handshake may already fail inside xcm_accept */
+            if (x) { char b[64]; int rc = xcm_receive(x, b, sizeof b); if (rc < 0 && errno != EAGAIN) eproto = true; else if (rc == 0) break; }
+            if (!eproto) { struct pollfd none; vs_real_poll(&none, 0, 1); }
+        }
+    }
+    VLOG("prior protocol error step: server %p accepted %p eproto %d", (void *)sv, (void *)x, eproto);
+    if (eproto) vobs("prior_tls_protocol_errors", 1);
+    if (x) xcm_close(x);
+    if (fd >= 0) vs_real_close(fd);
+    xcm_close(sv);
+}
+
 static void run_fault(struct ccase *c, long idx, vrng *r)
 {
     struct vep A, B, S; veng_ep_init(&A, 0, c->tp, vmix(r->s ^ 1)); veng_ep_init(&B, 1, c->tp, vmix(r->s ^ 2)); veng_ep_init(&S, 2, c->tp, vmix(r->s ^ 3));
     char why[256] = ""; struct vpair_opts po = { .user_timeout = 60 };
     if (veng_pair(c->tp, &A, &B, &S, &po, why, sizeof why) < 0) { vobs("setup_failed", 1); goto out; }
+    if (vtp_is_tls(c->tp) && (vrnd_p(r, 30) || getenv("VERIF_C06_DIRTY"))) prior_tls_protocol_error();
     /* the peer has sent some messages; optionally the endpoint under test has a frame pending */
     send_msgs(&B, c->nmsg, r, false); flush(&B, NULL, NULL);
     if (c->pending_frame) { for (int i = 0; i < 400; i++) { send_msgs(&A, 1, r, true); if (A.n_att && A.att[A.n_att - 1].state == -1) break; } }
@@ -378,6 +410,7 @@ static void run_orderly(struct ccase *c, long idx, vrng *r)
     struct vep A, B, S; veng_ep_init(&A, 0, c->tp, vmix(r->s ^ 1)); veng_ep_init(&B, 1, c->tp, vmix(r->s ^ 2)); veng_ep_init(&S, 2, c->tp, vmix(r->s ^ 3));
     char why[256] = ""; struct vpair_opts po = { .user_timeout = 60 };
     if (veng_pair(c->tp, &A, &B, &S, &po, why, sizeof why) < 0) { vobs("setup_failed", 1); goto out; }
+    if (vtp_is_tls(c->tp) && (vrnd_p(r, 30) || getenv("VERIF_C06_DIRTY"))) prior_tls_protocol_error();
     bool b_is_closer = vrnd_p(r, 50);
     struct vep *cl = b_is_closer ? &B : &A, *ob = b_is_closer ? &A : &B;
     send_msgs(cl, c->nmsg + (int)vrnd_n(r, 20), r, vrnd_p(r, 20)); flush(cl, NULL, NULL);
